@@ -42,7 +42,7 @@ LEAK_RE = re.compile(r"(mem::forget|boxed::Box::<.*>::leak|mem::ManuallyDrop::<.
 
 
 class Site:
-    __slots__ = ("kind", "fn", "file", "line", "detail", "bb", "discharge", "key", "operands", "macros")
+    __slots__ = ("kind", "fn", "file", "line", "detail", "bb", "discharge", "key", "operands", "macros", "old_key")
 
     def __init__(self, kind, fn, sp, detail, bb, operands=None):
         self.kind = kind
@@ -223,7 +223,7 @@ def scan(prog, entry_defs):
     # scanned on its own - its sites are attributed to the functions that call it
     prog.body(next(iter(defs))) if defs else None
     inl = getattr(prog, "_inliner", None)
-    scan_set = {d for d in defs if inl is None or not inl.inlinable(d)} | {d for d in entry_defs if d in defs}
+    scan_set = {d for d in defs if inl is None or not (inl.inlinable(d) or inl.closure_fully_inlined(d))} | {d for d in entry_defs if d in defs}
     work = list(scan_set)
     while work:
         d = work.pop()
@@ -277,6 +277,11 @@ class BodyIndex:
         if p is None:
             return ("unknown",)
         if p["p"]:
+            if len(p["p"]) == 1 and isinstance(p["p"][0], dict) and "f" in p["p"][0] and "n" not in p["p"][0]:
+                # field k of a tuple built in one piece (closure-call argument packs after inlining)
+                dt = self.single_def(p["l"])
+                if dt and dt[0] == "assign" and dt[3]["rv"]["k"] == "agg" and dt[3]["rv"].get("ak") == "tuple" and p["p"][0]["f"] < len(dt[3]["rv"]["ops"]):
+                    return self.resolve(dt[3]["rv"]["ops"][p["p"][0]["f"]], depth + 1)
             if len(p["p"]) == 1 and isinstance(p["p"][0], dict) and p["p"][0].get("f") == 0:
                 d0 = self.single_def(p["l"])
                 if d0 and d0[0] == "assign" and d0[3]["rv"]["k"] == "bin" and d0[3]["rv"]["op"].endswith("WithOverflow"):
@@ -414,6 +419,12 @@ def loop_var(ix, op, depth=0):
     if d and d[0] == "assign":
         rv = d[3]["rv"]
         if rv["k"] == "use":
+            q = op_place(rv["a"])
+            if q is not None and len(q["p"]) == 1 and isinstance(q["p"][0], dict) and "f" in q["p"][0] and "n" not in q["p"][0]:
+                # element of an argument tuple (inlined closure call)
+                dt = ix.single_def(q["l"])
+                if dt and dt[0] == "assign" and dt[3]["rv"]["k"] == "agg" and dt[3]["rv"].get("ak") == "tuple" and q["p"][0]["f"] < len(dt[3]["rv"]["ops"]):
+                    return loop_var(ix, dt[3]["rv"]["ops"][q["p"][0]["f"]], depth + 1)
             return loop_var(ix, rv["a"], depth + 1)
         if rv["k"] == "cast" and rv["ck"] == "IntToInt":
             fb, tb = INT_BITS.get(rv.get("from")), INT_BITS.get(rv.get("to"))
@@ -582,7 +593,7 @@ def adt_only_parsed(adt, fields):
         return memo[key]
     ok = prog is not None
     if ok:
-        for name, b in prog.bodies.items():
+        for name, b in prog.raw_bodies.items():
             for bi, si, st in b.stmts():
                 if st["k"] != "assign":
                     continue
@@ -1038,7 +1049,7 @@ def discharge(ix, s):
         ub = upper_bound(ix, idx)
         if lc is not None and ub is not None and ub <= lc:
             return "D2 index bounded by mask/remainder/width below the constant length"
-        rl = range_loop_var(ix, idx)
+        rl = loop_var(ix, idx)
         if rl:
             hi = ix.resolve(rl[1])
             if lc is not None and hi[0] == "const" and hi[1] <= lc:
@@ -1047,6 +1058,29 @@ def discharge(ix, s):
             ll = len_of(ix, ln)
             if hl and ll and hl == ll:
                 return "D3 induction variable bounded by len() of the same container"
+        # (i - c) with i the counter of a constant range within the array length (the subtraction is its own site)
+        pi = op_place(idx)
+        if pi is not None and lc is not None:
+            cur = pi
+            for _ in range(4):
+                if cur is None:
+                    break
+                if len(cur["p"]) == 1 and isinstance(cur["p"][0], dict) and cur["p"][0].get("f") == 0:
+                    d0 = ix.single_def(cur["l"])
+                    if d0 and d0[0] == "assign" and d0[3]["rv"]["k"] == "bin" and d0[3]["rv"]["op"] == "SubWithOverflow" and (const_int(d0[3]["rv"]["b"]) or 0) >= 0 and const_int(d0[3]["rv"]["b"]) is not None:
+                        rl2 = loop_var(ix, d0[3]["rv"]["a"])
+                        if rl2:
+                            hi2 = ix.resolve(rl2[1])
+                            if hi2[0] == "const" and hi2[1] <= lc:
+                                return "D3 induction variable of a constant range minus a constant, within the array length"
+                    break
+                if cur["p"]:
+                    break
+                dd = ix.single_def(cur["l"])
+                if dd and dd[0] == "assign" and dd[3]["rv"]["k"] == "use":
+                    cur = op_place(dd[3]["rv"]["a"])
+                else:
+                    break
         return None
     if k == "arith":
         if s.detail in ("Shl", "Shr"):
@@ -1095,10 +1129,12 @@ def discharge(ix, s):
             a, b = ops
             # a - min(a, _)
             rb = ix.resolve(b)
-            if rb[0] == "call" and ix.callee(rb[1]).endswith("cmp::min"):
+            if rb[0] == "call" and (ix.callee(rb[1]).endswith("cmp::min") or ix.callee(rb[1]).split("::")[-1] == "min"):
                 da = place_desc(ix, a)
                 if da and any(place_desc(ix, x) == da for x in rb[1]["args"]):
-                    return "D4 subtrahend is min(minuend, _)"
+                    m_ = re.match(r"^_(\d+)$", da)
+                    if m_ is None or unchanged_between(ix, rb[2], s.bb, {int(m_.group(1))}):
+                        return "D4 subtrahend is min(minuend, _)"
             # (x + c1) - c2 with c1 >= c2 on an unsigned type: the checked addition comes first
             cb0 = ix.resolve(b)
             pa0 = op_place(a)
@@ -1237,7 +1273,7 @@ def discharge(ix, s):
                 if lo[0] == "const" and lo[1] == 0:
                     if _from_find(ix, o[1], cdesc):
                         return "D9 end position returned by find() on the same string"
-                    if hi[0] == "call" and ix.callee(hi[1]).endswith("cmp::min"):
+                    if hi[0] == "call" and (ix.callee(hi[1]).endswith("cmp::min") or ix.callee(hi[1]).split("::")[-1] == "min"):
                         m_ = re.search(r"\[[^;\]]+; (\d+)\]", (op_place(cont) or {}).get("ty", ""))
                         for x in hi[1]["args"]:
                             if len_of(ix, x) == cdesc:
@@ -1254,6 +1290,19 @@ def discharge(ix, s):
                 m = re.search(r"\[[^;\]]+; (\d+)\]", (op_place(cont) or {}).get("ty", ""))
                 if hi[0] == "const" and m and hi[1] <= int(m.group(1)):
                     return "D1 constant range within the array length"
+                if hi[0] == "call" and ix.callee(hi[1]).split("::")[-1] == "min":
+                    for x in hi[1]["args"]:
+                        if len_of(ix, x) == cdesc:
+                            return "D4 range end is min(len(), _) of the same container"
+                        xr = ix.resolve(x)
+                        if m and xr[0] == "const" and xr[1] <= int(m.group(1)):
+                            return "D4 range end is min(constant <= array length, _)"
+                        # len() of a constant-length array, spelled as a call
+                        if m and xr[0] == "call" and ix.callee(xr[1]).endswith("::len"):
+                            ty_ = (op_place(xr[1]["args"][0]) or {}).get("ty", "") if xr[1]["args"] else ""
+                            m2 = re.search(r"\[[^;\]]+; (\d+)\]", ty_)
+                            if m2 and int(m2.group(1)) <= int(m.group(1)):
+                                return "D4 range end is min(len of an array not longer than this one, _)"
         return None
     if k == "alloc":
         # size argument is a constant or a len() of existing data
@@ -1344,6 +1393,58 @@ def index_shape(ix, s):
     return "[_]"
 
 
+def elem_type(container):
+    """Element type of an indexable container type as rustc prints it."""
+    c = container.strip()
+    c = re.sub(r"^&(mut )?", "", c)
+    m = re.match(r"^std::vec::Vec<(.*)>$", c)
+    if m:
+        return m.group(1)
+    m = re.match(r"^\[(.*); [^;\]]+\]$", c)
+    if m:
+        return m.group(1)
+    m = re.match(r"^\[(.*)\]$", c)
+    if m:
+        return m.group(1)
+    if c in ("std::string::String", "str"):
+        return "str"
+    return c
+
+
+def bounds_elem_type(ix, s):
+    """Element type behind an inline bounds check: the type of the place indexed in the block the assert leads to."""
+    body = ix.body
+    t = body.term(s.bb)
+    idx = op_place(s.operands[1])
+    tgt = t.get("t", -1)
+    if idx is None or tgt is None or tgt < 0:
+        return "?"
+
+    def scan_place(pl):
+        if isinstance(pl, dict) and any(isinstance(pr, dict) and pr.get("i") == idx["l"] for pr in pl.get("p", [])):
+            # type of the element = type after the index projection; when further projections follow we only know the
+            # final type, so name it through them
+            return pl.get("ty", "?") if isinstance(pl["p"][-1], dict) and pl["p"][-1].get("i") == idx["l"] else "(" + pl.get("ty", "?") + ")"
+        return None
+
+    for st in body.blocks[tgt]["s"]:
+        if st["k"] != "assign":
+            continue
+        cands = [st["lhs"]]
+        rv = st["rv"]
+        for o in [rv.get("a"), rv.get("b")] + list(rv.get("ops", [])):
+            pl = op_place(o) if isinstance(o, dict) else None
+            if pl:
+                cands.append(pl)
+        if isinstance(rv.get("p"), dict):
+            cands.append(rv["p"])
+        for pl in cands:
+            r = scan_place(pl)
+            if r:
+                return r
+    return "?"
+
+
 def analyse(prog, entry_defs, counts=None, wire=None):
     """Full PANIC analysis: sites with discharges and final keys."""
     sites, reach, parent, defs = scan(prog, entry_defs)
@@ -1360,14 +1461,21 @@ def analyse(prog, entry_defs, counts=None, wire=None):
             s.discharge = discharge(ix, s)
         except Exception as e:  # a discharge that cannot be evaluated is no discharge
             s.discharge = None
+        s.old_key = s.key
         if s.kind == "unwrap":
             s.key = f"{s.kind}|{s.fn}|{s.detail}{producer(ix, s)}"
+            s.old_key = s.key
         elif s.kind in ("index",):
-            s.key = f"{s.kind}|{s.fn}|{s.detail}{index_shape(ix, s)}"
+            s.old_key = f"{s.kind}|{s.fn}|{s.detail}{index_shape(ix, s)}"
+            # element accesses are keyed by element type and index shape, whatever the container (Vec / slice / array)
+            # and whether the compiler emitted an Index call or an inline bounds check
+            ga_ = (ix.body.term(s.bb)["f"].get("k") or {}).get("ga", [])
+            s.key = f"index|{s.fn}|{elem_type(ga_[0] if ga_ else s.detail)}{index_shape(ix, s)}"
         elif s.kind == "bounds":
             r = ix.resolve(s.operands[1])
             lc = const_int(s.operands[0])
-            s.key = f"{s.kind}|{s.fn}|len={lc if lc is not None else '_'} idx={r[1] if r[0]=='const' else '_'}"
+            s.old_key = f"{s.kind}|{s.fn}|len={lc if lc is not None else '_'} idx={r[1] if r[0]=='const' else '_'}"
+            s.key = f"index|{s.fn}|{bounds_elem_type(ix, s)}[{r[1] if r[0]=='const' else '_'}]"
         out.append((s, n))
     return out, reach, parent, defs
 
@@ -1576,11 +1684,11 @@ def requires_const_arg(ix, s, exc):
     prm = exc.get("params", {})
     fn, argi, lt = prm.get("fn"), prm.get("arg"), prm.get("lt")
     prog = ACTX.get("prog")
-    if prog is None or fn is None or fn not in prog.bodies:
+    if prog is None or fn is None or fn not in prog.raw_bodies:
         return False
-    is_closure = prog.bodies[fn].j.get("kind") == "Closure"
+    is_closure = prog.raw_bodies[fn].j.get("kind") == "Closure"
     n = 0
-    for name, b in prog.bodies.items():
+    for name, b in prog.raw_bodies.items():
         cix = None
         for bi, t in b.calls():
             if (t.get("res") or "") != fn:
@@ -1612,7 +1720,7 @@ def requires_const_arg(ix, s, exc):
     if is_closure:
         # the closure value is only ever borrowed for a direct call
         par = fn.rsplit("::{closure", 1)[0]
-        pb = prog.bodies.get(par)
+        pb = prog.raw_bodies.get(par)
         if pb is None:
             return False
         pix = BodyIndex(pb)
